@@ -39,11 +39,11 @@ RECURSIVE DecText(_)
 DecText(n) == IF n < 10 THEN <<48 + n>> ELSE DecText(n \div 10) \o <<48 + (n % 10)>>
 
 OptInt(s) == IF s = <<>> THEN [ok |-> TRUE, v |-> <<48>>]
-             ELSE IF AtoiSyntax(s) THEN [ok |-> TRUE, v |-> CanonInt(s)] ELSE [ok |-> FALSE]
+             ELSE IF AtoiOK(s) THEN [ok |-> TRUE, v |-> CanonInt(s)] ELSE [ok |-> FALSE]
 
 IntList(s) == IF s = <<>> THEN [ok |-> TRUE, v |-> <<>>, n |-> 0]
               ELSE LET ps == SplitOn(s, COMMA) IN
-                   IF \E i \in 1..Len(ps) : ~AtoiSyntax(ps[i]) THEN [ok |-> FALSE]
+                   IF \E i \in 1..Len(ps) : ~AtoiOK(ps[i]) THEN [ok |-> FALSE]
                    ELSE [ok |-> TRUE, v |-> Join([i \in 1..Len(ps) |-> CanonInt(ps[i])], <<COMMA>>), n |-> Len(ps)]
 
 Rgb(s, U8) == IF s = <<>> THEN [ok |-> TRUE, v |-> ZeroField(9)]
@@ -60,7 +60,7 @@ ParseLine(fields, U8) ==
            o5 == OptInt(g[5])  o7 == OptInt(g[7])  o8 == OptInt(g[8])  o10 == OptInt(g[10])
            rgb == Rgb(g[9], U8)
            l11 == IntList(g[11])  l12 == IntList(g[12])
-       IN IF ~AtoiSyntax(i2) \/ ~AtoiSyntax(i3) THEN BERR
+       IN IF ~AtoiOK(i2) \/ ~AtoiOK(i3) THEN BERR
           ELSE IF ~o5.ok THEN BERR
           ELSE IF g[6] \notin Strands THEN BERR
           ELSE IF ~o7.ok \/ ~o8.ok \/ ~rgb.ok \/ ~o10.ok \/ ~l11.ok \/ ~l12.ok THEN BERR
